@@ -126,11 +126,35 @@ pub fn drive(c: &Case) -> Result<Outcome, mon::PanicInfo> {
     let probe = d.clone();
     let cfg = c.cfg.clone();
     let tls = c.transport == "tls";
+    let reuse_connector = tls && c.nla_seed % 5 == 0;
+    // the first server of a reused Connector: same profile and account, its own state
+    let d0 = Duplex::new(c.profile.clone());
+    if reuse_connector {
+        let mut nr0 = Rng::new(c.nla_seed ^ 0x5a5a);
+        let nla0 = gen::nla_cfg(&mut nr0, &c.cfg);
+        d0.with(|s| {
+            s.tls_identity = c.tls_identity;
+            s.tls12_only = c.tls12_only;
+            s.nla_cfg = nla0;
+        });
+    }
     let react = c.reactivations.clone();
     let res = mon::guarded(move || {
         let mut reads = Vec::new();
         let mut shutdown = None;
-        let conn = if tls { client::connect_real(&cfg, d.clone()) } else { client::connect_plain(&cfg, d.clone()) };
+        // one TLS case in five: the application connects twice with the same Connector (to a first conforming server,
+        // session closed at once); the connection that is judged is the second one
+        let conn = if tls && reuse_connector {
+            let mut k = client::connector(&cfg);
+            if let Ok(mut first) = k.connect(d0.clone()) {
+                let _ = first.shutdown();
+            }
+            k.connect(d.clone()).map(Client::Real)
+        } else if tls {
+            client::connect_real(&cfg, d.clone())
+        } else {
+            client::connect_plain(&cfg, d.clone())
+        };
         let connect = match conn {
             Err(e) => Err(client::err_kind(&e)),
             Ok(mut cl) => {
@@ -349,6 +373,7 @@ pub fn check_case(c: &Case, rep: &mut Report) {
 }
 
 pub fn run(cfg: &Cfg) -> Report {
+    crate::tls::prewarm(true);
     let seed = cfg.seed;
     let mut total = Report::new();
     let plan: Vec<(u64, u64)> = vec![(0, cfg.n(6_000, 1_500_000)), (1, cfg.n(600, 150_000)), (2, if cfg.quick() { 300 } else { 64535 }), (3, cfg.n(140 * 4, 140 * 200))];
